@@ -105,7 +105,9 @@ impl Fiber {
       let depth = self.stack_top.offset_from(self.stack_start());
       let end = self.stack.as_ptr().add(self.stack.cap());
       let left = end.offset_from(self.stack_top as *const Value);
-      let frames = self.frames.len();
+      // during an unwind the frames are only truncated by finish_unwind, so take the index
+      // of the frame that is executing rather than the number of frames
+      let frames = (self.frame as *const CallFrame).offset_from(self.frames.as_ptr()) as usize + 1;
       let own = self
         .exception_handlers
         .iter()
